@@ -2,6 +2,7 @@
 import json
 from .. import gen
 from .C03 import py_of_json, reject_constant
+from . import sizes
 
 SPEC_THEOREM = 'Props/C02: parse_value never panics; RFC 8259 documents parse to the value they denote (model JsonText.v)'
 TRUSTED = ['Coq 8.16.1 kernel', 'translator (HEX table, escape characters)', 'extraction + OCaml driver', 'Rust harness',
@@ -218,6 +219,28 @@ def generate(ctx):
         t = ('[' + ','.join(str(i) for i in range(w)) + ']').encode()
         docs.append(t)
         ctx.add('parse_value %s' % gen.hexarg(t), meta=('doc', t, False))
+    # long strings and keys (300 and 5000 bytes through the model as well; 70 000 bytes -- beyond a 16-bit length -- through the
+    # implementation only, the model's string reader being quadratic: those are judged by Python's strict parser alone), with an
+    # escape / a multi-byte character / a surrogate pair as the very LAST thing in the string; arrays and objects of 1000 members
+    # (sizes.py; second review H2)
+    tails = [b'', b'\\n', b'\\u00e9', b'\\ud83d\\ude00', '\u00e9'.encode(), '\U0001F600'.encode(), b'\\\\', b'\\"', b'\\/']
+    longest = 0
+    for n in (300, 5000, 70000):
+        for j, tail in enumerate(tails if n < 70000 else tails[:5]):
+            body = sizes.text(n - len(tail), j) + tail
+            lit = b'"' + body + b'"'
+            longest = max(longest, len(lit))
+            for t in (lit, b'[' + lit + b', 1]', b'{"a":1,' + lit + b' : [2]}') if j < 3 else (b'[1,' + lit + b']',):
+                if n < 70000:
+                    docs.append(t)          # (the pool the parse_lazy_value sample is drawn from: model-sized texts only)
+                ctx.add('parse_value %s' % gen.hexarg(t), meta=('doc', t, False), diff=n < 70000)
+    for w in (255, 256, 257, 1000):
+        for t in (b'[' + b','.join(b'%d' % i for i in range(w)) + b']', b'[' + b' , '.join(b'"s%d"' % i for i in range(w)) + b']',
+                  b'{' + b','.join(b'"k%04d":%d' % (i, i) for i in range(w)) + b'}', b'{' + b','.join(b'"k%04d":[]' % (w - i) for i in range(w)) + b'}',
+                  b'[' * w + b']' * w):
+            docs.append(t)
+            ctx.add('parse_value %s' % gen.hexarg(t), meta=('doc', t, False))
+    ctx.stats['size_maxima'] = {'longest_string_literal_bytes': longest, 'widest_container_in_a_text': 1000, 'deepest_nesting_in_a_text': 1000}
     # classic hard numbers
     for t in [b'0.1', b'1e23', b'5e-324', b'3e-324', b'2e-324', b'2.2250738585072011e-308', b'1.7976931348623157e308', b'1.7976931348623159e308',
               b'9007199254740993', b'9007199254740993.0', b'7.91252914157506e-14', b'8.675514674482229e-196', b'1e400', b'-1e400', b'1e-400', b'-0', b'-0.0', b'0e0',
